@@ -24,6 +24,9 @@ from common import (ToolError, log, workdir, seed, tlc_check, require_coverage, 
 
 CRATE = os.environ.get("VERIF_WIN_CRATE") or os.path.join(ROOT, "harness-win")
 VHW = os.path.join(CRATE, "target", "debug", "vhw")
+# development aid (mutation testing of the checks): skip the model checks, which do not depend on
+# /repo, and reuse generated behaviours from work/win/gencache.  Never set in a real run.
+FAST = os.environ.get("VERIF_WIN_FAST") == "1"
 
 
 # ------------------------------------------------------------------------------------------------
@@ -57,44 +60,80 @@ def extra_known(V):
             V.known = list(V.known) + json.load(f).get("findings", [])
 
 
-def model_check(V, wd, module, cfgs, actions, timeout):
-    for cfg in cfgs:
-        r = tlc_check(f"{SPEC}/comp/{module}.tla", f"{SPEC}/mc/{cfg}.cfg", wd, cfg, workers=8,
-                      timeout=timeout)
-        if not r["ok"]:
-            tail = "\n".join(l for l in r["out"].splitlines() if "MODELVIOL" in l)[:1500]
-            raise ToolError(f"model check {cfg}: invariant {r['invariant_violated']} fails on the MODEL; "
-                            f"reproduce on the code before blaming it (DESIGN.md 2.6)\n{tail}")
-        require_coverage(r, actions, cfg)
-        V.add_model(r, cfg)
-        V.coverage.setdefault("constants", {})[cfg] = cfg_constants(f"{SPEC}/mc/{cfg}.cfg")
+def mc(module, cfg, actions):
+    return {"what": "mc", "module": module, "cfg": cfg, "actions": actions}
 
 
-def finding_must_fail(V, wd, module, cfg, invariant):
-    """A carve-out must not silently widen: the finding config must still give the counterexample."""
-    r = tlc_check(f"{SPEC}/comp/{module}.tla", f"{SPEC}/mc/{cfg}.cfg", wd, cfg, workers=2, timeout=300)
-    still = r["invariant_violated"] == invariant
-    V.coverage.setdefault("finding_configs_still_fail", {})[cfg] = still
-    V.add_model(r, cfg)
-    if not still:
-        raise ToolError(f"{cfg}: the model no longer shows the known defect ({invariant} holds): "
-                        "the model or the carve-out of the main config changed")
+def finding(module, cfg, invariant):
+    return {"what": "finding", "module": module, "cfg": cfg, "invariant": invariant}
 
 
-def generate(V, wd, module, cfg, simulate=None, depth=200, timeout=600):
-    r = tlc_check(f"{SPEC}/comp/{module}.tla", f"{SPEC}/gen/{cfg}.cfg", wd, cfg, workers=4 if simulate else 8,
-                  coverage=False, timeout=timeout,
-                  simulate=f"num={simulate}" if simulate else None,
-                  extra=["-depth", str(depth), "-seed", str(seed())] if simulate else None)
-    if not simulate and not r["ok"]:
-        raise ToolError(f"behaviour generation {cfg} failed")
-    if not r["replays"]:
-        raise ToolError(f"behaviour generation {cfg} produced no behaviour")
-    if not simulate:
-        V.coverage["states"] += r.get("distinct", 0)
-        V.coverage["transitions"] += r.get("states", 0)
-    V.coverage.setdefault("behaviours_generated", {})[cfg] = len(r["replays"])
-    return r["replays"]
+def gen(module, cfg, simulate=None, depth=120):
+    return {"what": "gen", "module": module, "cfg": cfg, "simulate": simulate, "depth": depth}
+
+
+def _gen_cache(j):
+    return os.path.join(ROOT, "work", "win", "gencache", f"{j['cfg']}_{j['simulate']}_{seed()}.json")
+
+
+def _run_tlc_job(args):
+    j, wd, timeout = args
+    spec = f"{SPEC}/comp/{j['module']}.tla"
+    if j["what"] == "gen":
+        if FAST and os.path.exists(_gen_cache(j)):
+            with open(_gen_cache(j)) as f:
+                return {"replays": json.load(f), "cached": True, "ok": True}
+        sim = j["simulate"]
+        return tlc_check(spec, f"{SPEC}/gen/{j['cfg']}.cfg", wd, j["cfg"], workers=4, coverage=False,
+                         timeout=timeout, xmx="3g", simulate=f"num={sim}" if sim else None,
+                         extra=["-depth", str(j["depth"]), "-seed", str(seed())] if sim else None)
+    if FAST:
+        return None
+    return tlc_check(spec, f"{SPEC}/mc/{j['cfg']}.cfg", wd, j["cfg"], workers=4, timeout=timeout, xmx="3g")
+
+
+def run_tlc(V, wd, jobs, timeout=1500):
+    """Run the model checks, the finding configs and the behaviour generation (independent TLC runs,
+    four at a time) and account for them.  Returns {gen cfg: behaviours}."""
+    with ThreadPoolExecutor(max_workers=4) as ex:
+        results = list(ex.map(_run_tlc_job, [(j, wd, timeout) for j in jobs]))
+    behs = {}
+    for j, r in zip(jobs, results):
+        cfg = j["cfg"]
+        if r is None:
+            continue
+        if j["what"] == "mc":
+            if not r["ok"]:
+                tail = "\n".join(l for l in r["out"].splitlines() if "MODELVIOL" in l)[:1500]
+                raise ToolError(f"model check {cfg}: invariant {r['invariant_violated']} fails on the MODEL; "
+                                f"reproduce on the code before blaming it (DESIGN.md 2.6)\n{tail}")
+            require_coverage(r, j["actions"], cfg)
+            V.add_model(r, cfg)
+            V.coverage.setdefault("constants", {})[cfg] = cfg_constants(f"{SPEC}/mc/{cfg}.cfg")
+        elif j["what"] == "finding":
+            # a carve-out must not silently widen: the finding config must still give the counterexample
+            still = r["invariant_violated"] == j["invariant"]
+            V.coverage.setdefault("finding_configs_still_fail", {})[cfg] = still
+            V.add_model(r, cfg)
+            if not still:
+                raise ToolError(f"{cfg}: the model no longer shows the known defect ({j['invariant']} holds): "
+                                "the model or the carve-out of the main config changed")
+        else:
+            if not j["simulate"] and not r["ok"]:
+                raise ToolError(f"behaviour generation {cfg} failed")
+            if not r["replays"]:
+                raise ToolError(f"behaviour generation {cfg} produced no behaviour")
+            if not j["simulate"] and not r.get("cached"):
+                V.coverage["states"] += r.get("distinct", 0)
+                V.coverage["transitions"] += r.get("states", 0)
+            V.coverage.setdefault("behaviours_generated", {})[cfg] = len(r["replays"])
+            V.coverage.setdefault("constants", {})[cfg] = cfg_constants(f"{SPEC}/gen/{cfg}.cfg")
+            if FAST and not r.get("cached"):
+                os.makedirs(os.path.dirname(_gen_cache(j)), exist_ok=True)
+                with open(_gen_cache(j), "w") as f:
+                    json.dump(r["replays"], f)
+            behs[cfg] = r["replays"]
+    return behs
 
 
 def keys_of(b):
@@ -210,25 +249,27 @@ def C12(V, tier):
     rng = random.Random(seed())
     quick = tier == "quick"
     acts = ["Feed", "EndIter", "Term"]
-    model_check(V, wd, "CountWindow",
-                ["CountWindow_quick", "CountWindow_keyed_quick"] if quick else
-                ["CountWindow_quick", "CountWindow_keyed_quick", "CountWindow_thorough",
-                 "CountWindow_keyed_thorough", "CountWindow_keyed2_thorough"], acts, 1500)
-    # R: the whole finite space (N, S, mode, len1, len2) on the real manager
     gen_cfg = "CountWindow_gen" if quick else "CountWindow_gen_thorough"
-    behs = generate(V, wd, "CountWindow", gen_cfg)
+    jobs = [mc("CountWindow", "CountWindow_quick", acts), mc("CountWindow", "CountWindow_keyed_quick", acts)]
+    if not quick:
+        jobs += [mc("CountWindow", c, acts) for c in
+                 ("CountWindow_thorough", "CountWindow_keyed_thorough", "CountWindow_keyed2_thorough")]
+    jobs += [gen("CountWindow", gen_cfg), gen("CountWindow", "CountWindow_gen_keyed"),
+             gen("CountWindow", "CountWindow_gen_timed"),
+             gen("CountWindow", "CountWindow_gen_sim", simulate=200 if quick else 3000)]
+    b = run_tlc(V, wd, jobs)
+    # R: the whole finite space (N, S, mode, len1, len2) on the real manager
+    behs = b[gen_cfg]
     k = cfg_constants(f"{SPEC}/gen/{gen_cfg}.cfg")
     nmax, lmax, iters = int(k["NMAX"]), int(k["LMAX"]), int(k["ITERS"])
     expected = (nmax * (nmax + 1) // 2) * 2 * (lmax + 1) ** iters
     cases = make_cases("c", behs, ["direct"])
     # keyed interleavings through WindowOperator (real single-block jobs); timed inputs with watermarks
-    kb = generate(V, wd, "CountWindow", "CountWindow_gen_keyed")
+    kb = b["CountWindow_gen_keyed"]
     cases += make_cases("k", kb if not quick else sample(rng, kb, 1500), ["keyed"])
     cases += make_cases("s", sample(rng, behs, 300 if quick else 2000), ["keyed"])
-    tb = generate(V, wd, "CountWindow", "CountWindow_gen_timed")
-    cases += make_cases("t", tb, ["direct", "keyed"])
-    sb = generate(V, wd, "CountWindow", "CountWindow_gen_sim", simulate=200 if quick else 3000, depth=120)
-    cases += make_cases("r", sb, ["keyed"])
+    cases += make_cases("t", b["CountWindow_gen_timed"], ["direct", "keyed"])
+    cases += make_cases("r", b["CountWindow_gen_sim"], ["keyed"])
     results = run_vhw(cases, wd)
     judge(V, wd, cases, results)
     direct_done = sum(1 for c in cases if c["id"].startswith("c") and results.get(c["id"], {}).get("panic") is None)
@@ -246,34 +287,37 @@ def C13(V, tier):
     rng = random.Random(seed())
     quick = tier == "quick"
     acts = ["Feed", "Wm", "EndIter", "Term"]
-    model_check(V, wd, "EventTimeWindow",
-                ["EventTimeWindow_quick", "EventTimeWindow_keyed_quick"] if quick else
-                ["EventTimeWindow_quick", "EventTimeWindow_keyed_quick", "EventTimeWindow_thorough",
-                 "EventTimeWindow_thorough2", "EventTimeWindow_keyed_thorough"], acts, 1500)
-    model_check(V, wd, "TransactionWindow",
-                ["TransactionWindow_quick"] if quick else
-                ["TransactionWindow_quick", "TransactionWindow_thorough", "TransactionWindow_thorough2",
-                 "TransactionWindow_keyed_thorough"], acts, 1500)
-    model_check(V, wd, "TransactionWindow", ["TransactionWindow_quick2"], ["Feed", "EndIter", "Term"], 600)
-    # F3 / F7: the main configs exclude exactly their input classes; these must still fail
-    finding_must_fail(V, wd, "EventTimeWindow", "EventTimeWindow_finding", "C13_Lost")
-    finding_must_fail(V, wd, "TransactionWindow", "TransactionWindow_finding", "C13_TxnQuiet")
+    ev_gen = "EventTimeWindow_gen" if quick else "EventTimeWindow_gen_thorough"
+    jobs = [mc("EventTimeWindow", "EventTimeWindow_quick", acts),
+            mc("EventTimeWindow", "EventTimeWindow_keyed_quick", acts),
+            mc("TransactionWindow", "TransactionWindow_quick", acts),
+            mc("TransactionWindow", "TransactionWindow_quick2", ["Feed", "EndIter", "Term"]),
+            # F3 / F7: the main configs exclude exactly their input classes; these must still fail
+            finding("EventTimeWindow", "EventTimeWindow_finding", "C13_Lost"),
+            finding("TransactionWindow", "TransactionWindow_finding", "C13_TxnQuiet")]
+    if not quick:
+        jobs += [mc("EventTimeWindow", c, acts) for c in
+                 ("EventTimeWindow_thorough", "EventTimeWindow_thorough2", "EventTimeWindow_keyed_thorough")]
+        jobs += [mc("TransactionWindow", c, acts) for c in
+                 ("TransactionWindow_thorough", "TransactionWindow_thorough2", "TransactionWindow_keyed_thorough")]
+        jobs += [gen("EventTimeWindow", "EventTimeWindow_gen_keyed")]
+    jobs += [gen("EventTimeWindow", ev_gen),
+             gen("EventTimeWindow", "EventTimeWindow_gen_sim", simulate=300 if quick else 4000),
+             gen("TransactionWindow", "TransactionWindow_gen"), gen("TransactionWindow", "TransactionWindow_gen2"),
+             gen("TransactionWindow", "TransactionWindow_gen_sim", simulate=200 if quick else 3000)]
+    b = run_tlc(V, wd, jobs)
     cases = []
-    eb = generate(V, wd, "EventTimeWindow", "EventTimeWindow_gen" if quick else "EventTimeWindow_gen_thorough")
-    cases += make_cases("e", eb if not quick else sample(rng, eb, 6000), ["direct"])
+    eb = b[ev_gen]
+    cases += make_cases("e", eb if not quick else sample(rng, eb, 3000), ["direct"])
     cases += make_cases("f", sample(rng, eb, 300 if quick else 3000), ["keyed"])
-    ek = generate(V, wd, "EventTimeWindow", "EventTimeWindow_gen_keyed")
-    cases += make_cases("k", ek if not quick else sample(rng, ek, 1200), ["keyed"])
-    es = generate(V, wd, "EventTimeWindow", "EventTimeWindow_gen_sim", simulate=300 if quick else 4000, depth=120)
-    cases += make_cases("r", es, ["keyed"])
-    tb = generate(V, wd, "TransactionWindow", "TransactionWindow_gen")
-    cases += make_cases("t", tb if not quick else sample(rng, tb, 3000), ["direct"])
+    if not quick:
+        cases += make_cases("k", b["EventTimeWindow_gen_keyed"], ["keyed"])
+    cases += make_cases("r", b["EventTimeWindow_gen_sim"], ["keyed"])
+    tb = b["TransactionWindow_gen"]
+    cases += make_cases("t", tb if not quick else sample(rng, tb, 2000), ["direct"])
     cases += make_cases("u", sample(rng, tb, 200 if quick else 2000), ["keyed"])
-    t2 = generate(V, wd, "TransactionWindow", "TransactionWindow_gen2")
-    cases += make_cases("v", t2, ["direct", "keyed"] if not quick else ["direct"])
-    ts = generate(V, wd, "TransactionWindow", "TransactionWindow_gen_sim", simulate=200 if quick else 3000,
-                  depth=120)
-    cases += make_cases("w", ts, ["keyed"])
+    cases += make_cases("v", b["TransactionWindow_gen2"], ["direct", "keyed"] if not quick else ["direct"])
+    cases += make_cases("w", b["TransactionWindow_gen_sim"], ["keyed"])
     results = run_vhw(cases, wd)
     judge(V, wd, cases, results)
     V.assumptions += ["inputs respect the watermark contract (timestamp > last watermark); late elements are not generated",
@@ -287,29 +331,45 @@ def C14(V, tier):
     V.coverage["build_win_s"] = round(build_vhw(), 1)
     rng = random.Random(seed())
     quick = tier == "quick"
-    model_check(V, wd, "ProcTimeWindow",
-                ["ProcTimeWindow_quick", "ProcTimeWindow_quick2"] if quick else
-                ["ProcTimeWindow_quick", "ProcTimeWindow_quick2", "ProcTimeWindow_thorough"],
-                ["Feed", "EndIter", "Term"], 1500)
-    model_check(V, wd, "ProcTimeWindow",
-                ["ProcTimeWindow_quick3"] if quick else ["ProcTimeWindow_quick3", "ProcTimeWindow_thorough2"],
-                ["Feed", "Wm", "EndIter", "Term"], 1500)
-    model_check(V, wd, "SessionWindow", ["SessionWindow_quick", "SessionWindow_quick2"],
-                ["Feed", "EndIter", "Term"], 1500)
-    model_check(V, wd, "SessionWindow",
-                ["SessionWindow_quick3"] if quick else ["SessionWindow_quick3", "SessionWindow_thorough"],
-                ["Feed", "Wm", "EndIter", "Term"], 1500)
+    a3, a4 = ["Feed", "EndIter", "Term"], ["Feed", "Wm", "EndIter", "Term"]
+    jobs = []
+    for m in ("ProcTimeWindow", "SessionWindow"):
+        jobs += [mc(m, f"{m}_quick", a3), mc(m, f"{m}_quick2", a3), mc(m, f"{m}_quick3", a4)]
+    if not quick:
+        jobs += [mc("ProcTimeWindow", "ProcTimeWindow_thorough", a3), mc("ProcTimeWindow", "ProcTimeWindow_thorough2", a4),
+                 mc("SessionWindow", "SessionWindow_thorough", a4)]
+    for m in ("ProcTimeWindow", "SessionWindow"):
+        jobs += [gen(m, f"{m}_gen" if quick else f"{m}_gen_thorough"), gen(m, f"{m}_gen2"),
+                 gen(m, f"{m}_gen_sim", simulate=300 if quick else 4000)]
+    b = run_tlc(V, wd, jobs)
     cases = []
-    for module, tag in (("ProcTimeWindow", "p"), ("SessionWindow", "s")):
-        b1 = generate(V, wd, module, f"{module}_gen" if quick else f"{module}_gen_thorough")
+    for m, tag in (("ProcTimeWindow", "p"), ("SessionWindow", "s")):
+        b1 = b[f"{m}_gen" if quick else f"{m}_gen_thorough"]
         cases += make_cases(tag + "a", b1, ["direct"])
         cases += make_cases(tag + "b", sample(rng, b1, 300 if quick else 3000), ["keyed"])
-        b2 = generate(V, wd, module, f"{module}_gen2")
+        b2 = b[f"{m}_gen2"]
         cases += make_cases(tag + "c", b2 if not quick else sample(rng, b2, 1500), ["keyed"])
-        b3 = generate(V, wd, module, f"{module}_gen_sim", simulate=300 if quick else 4000, depth=120)
-        cases += make_cases(tag + "d", b3, ["keyed"])
+        cases += make_cases(tag + "d", b[f"{m}_gen_sim"], ["keyed"])
     results = run_vhw(cases, wd)
     judge(V, wd, cases, results)
     V.assumptions += ["wall-clock windows are judged under the mock clock only (renoir::verif::set_mock_clock, "
                       "1 tick = 10 ms): TLC's integer tick patterns are replayed tick for tick",
                       "the real Instant::now() path is not exercised by this check"]
+
+
+def C06_windows(V, tier):
+    """By-product for the owner of C06: watermark safety at the output of the window operators
+    (WindowCheck emits prop "C06" records; with V.prop == "C06" they count).  Expected on the
+    unchanged tree: findings F4 (event time) and F5 (count, non exact)."""
+    wd = workdir("C06win")
+    extra_known(V)
+    build_vhw()
+    b = run_tlc(V, wd, [finding("EventTimeWindow", "EventTimeWindow_finding_c06", "C06_LateResult"),
+                        finding("CountWindow", "CountWindow_finding", "C06_LateResult"),
+                        gen("EventTimeWindow", "EventTimeWindow_gen"), gen("CountWindow", "CountWindow_gen_timed"),
+                        gen("EventTimeWindow", "EventTimeWindow_gen_sim", simulate=300 if tier == "quick" else 3000)])
+    rng = random.Random(seed())
+    cases = make_cases("e", sample(rng, b["EventTimeWindow_gen"], 3000), ["direct", "keyed"])
+    cases += make_cases("t", b["CountWindow_gen_timed"], ["direct", "keyed"])
+    cases += make_cases("r", b["EventTimeWindow_gen_sim"], ["keyed"])
+    judge(V, wd, cases, run_vhw(cases, wd))
